@@ -30,7 +30,7 @@ def fname(pkg, tier):
     return (p.replace(".", "/") + "/" if p else "") + "f_%s_%d.proto" % (p.replace(".", "_") or "root", tier)
 
 
-def pair_program(cur, tgt, sites, circular=False):
+def pair_program(cur, tgt, sites, circular=False, named=False):
     """package tgt defines T (nested N, enum K) and enum E; package cur refers to them from the given sites.
     tier-0 file of tgt holds the targets, tier-1 file of cur holds the referrers (so cur == tgt and circular shapes work)."""
     tp, cp = ".".join(tgt), ".".join(cur)
@@ -46,7 +46,9 @@ def pair_program(cur, tgt, sites, circular=False):
             continue
         t = kinds[kind]
         if site == "field":
-            body += "  %s f%d = %d;\n" % (t, num, num)
+            # named: the field is called like the package (atom) its type lives in -- the name the generated module binds for the import
+            nm = tgt[-1] if named and tgt and ("  %s %s = " % (t, tgt[-1])) not in body and (" %s = " % tgt[-1]) not in body else "f%d" % num
+            body += "  %s %s = %d;\n" % (t, nm, num)
         elif site == "repeated":
             body += "  repeated %s f%d = %d;\n" % (t, num, num)
         elif site == "map":
@@ -78,6 +80,10 @@ def pair_program(cur, tgt, sites, circular=False):
     return protos
 
 
+PREFIX_PAIRS = [(["a"], ["ab"]), (["ab"], ["a"]), (["a", "b"], ["a", "bc"]), (["a", "bc"], ["a", "b"]), (["a"], ["ab", "c"]), (["ab", "c"], ["a"]),
+                (["a", "b"], ["ab"]), (["ab"], ["a", "b"]), (["a", "b"], ["a", "bc", "d"]), (["a", "bc", "d"], ["a", "b"]), (["x", "a"], ["x", "ab"]),
+                (["x", "ab"], ["x", "a"]), (["a"], ["a1"]), (["a1"], ["a"]), (["a", "v1"], ["a", "v1beta1"]), (["a", "v1beta1"], ["a", "v1"])]
+KNOWN_COLLISION_SHAPES = ()
 SITES = ["field", "repeated", "map", "oneof", "rpc_in", "rpc_out"]
 KINDS = ["msg", "nested", "enum", "nestedenum"]
 
@@ -118,7 +124,9 @@ def run(ctx):
     ev0 = ctx.pmap(ref_event, pairs)
     ctx.validate("Trace_Importing", ev0, shard=400, cfg_text="SPECIFICATION TraceSpec\nCONSTANTS\n  Atoms = {\"a\"}\n  MaxDepth = 1\n  UnderscoreAtoms = {}\nCHECK_DEADLOCK FALSE\n")
     drift = [c for cl, c in ctx.violations if cl.endswith("_differs_from_model") or cl == "more_than_one_import"]
+    drift_pairs = []
     if drift:
+        drift_pairs = [(d["case"]["cur"], d["case"]["tgt"]) for d in drift]
         ctx.violations = [(cl, c) for cl, c in ctx.violations if c not in drift]
         ctx.notes["model_drift_cases"] = len(drift)
         ctx.notes["model_drift_samples"] = [d["case"] for d in drift[:3]]
@@ -143,6 +151,22 @@ def run(ctx):
     for cur, tgt in iso_pairs[: (12 if quick else 120)]:
         cases.append((ctx.work, "c%d" % k, pair_program(cur, tgt, [(rnd.choice(SITES[:4]), kd) for kd in KINDS], circular=True), ()))
         k += 1
+    # package names that are string prefixes of one another without being related (a / ab, a.b / a.bc), in both directions
+    for cur, tgt in PREFIX_PAIRS:
+        cases.append((ctx.work, "x%d" % k, pair_program(cur, tgt, allsites), ()))
+        k += 1
+    # fields called like the package atom their type lives in (what the generated module binds for the import)
+    for cur, tgt in [(c, t) for c in ps2 for t in ps2 if t and c != t][: (20 if quick else 200)]:
+        cases.append((ctx.work, "n%d" % k, pair_program(cur, tgt, [("field", "msg"), ("field", "enum"), ("map", "nested"), ("oneof", "msg")], named=True), ()))
+        k += 1
+    # where compile/importing.py deviates from the model (drift), the pairs are decided on generated code as well
+    rnd.shuffle(drift_pairs)
+    for cur, tgt in drift_pairs[:40]:
+        if any(a == "a_b" for a in cur + tgt) and (cur, tgt) in KNOWN_COLLISION_SHAPES:
+            continue
+        cases.append((ctx.work, "d%d" % k, pair_program(cur, tgt, allsites), ()))
+        k += 1
+    ctx.notes["drift_directed_programs"] = min(40, len(drift_pairs))
     # well-known types and the recorded collision / capitalised-package inputs
     cases.append((ctx.work, "wkt", {"w.proto": 'syntax = "proto3";\npackage w.x;\nimport "google/protobuf/empty.proto";\nimport "google/protobuf/any.proto";\n'
                                      'import "google/protobuf/struct.proto";\nimport "google/protobuf/field_mask.proto";\n'
